@@ -577,6 +577,62 @@ func ruleC04(p *Program, r *Run) {
 
 	ruleC04Escape(p, r, g)
 	ruleC04Numbers(p, r)
+	ruleC04Assembled(p, r)
+}
+
+// ruleC04Assembled: text that is later written raw as "already assembled SQL" (subquery.sourceSQL, let values in the
+// scope) is only ever the contents of a builder whose writes are themselves checked, or a caller parameter.
+func ruleC04Assembled(p *Program, r *Run) {
+	pkg := p.PQL
+	info := pkg.TypesInfo
+	isBuilderString := func(e ast.Expr) bool {
+		call, ok := ast.Unparen(e).(*ast.CallExpr)
+		if !ok {
+			return false
+		}
+		sel, ok := ast.Unparen(call.Fun).(*ast.SelectorExpr)
+		return ok && sel.Sel.Name == "String" && isBuilder(info, sel.X)
+	}
+	n := 0
+	for _, fd := range AllFuncs(pkg) {
+		fn := FuncName(pkg, fd)
+		ast.Inspect(fd.Body, func(x ast.Node) bool {
+			switch v := x.(type) {
+			case *ast.AssignStmt:
+				for i, l := range v.Lhs {
+					if i >= len(v.Rhs) {
+						continue
+					}
+					if f := selField(info, l); f != nil && f.Name() == "sourceSQL" {
+						n++
+						r.Check(isBuilderString(v.Rhs[i]), "C04/assembled", fmt.Sprintf("%s store #%d to subquery.sourceSQL", fn, n), p.Pos(v.Pos()), "contents of a builder (every write into it is a checked emission)", "subquery.sourceSQL, which is later written into the SQL verbatim, is assembled by hand ("+exprStr(v.Rhs[i])+") instead of through a builder whose writes are checked: names reach the SQL unescaped")
+					}
+					if ix, ok := ast.Unparen(l).(*ast.IndexExpr); ok {
+						if ok2, _ := p.scopeProvenance(fd, ix.X, 0); ok2 {
+							n++
+							okv := isBuilderString(v.Rhs[i])
+							if rs, isRange := p.Parent(p.Parent(v)).(*ast.RangeStmt); isRange && rs.Value != nil && objOf(info, v.Rhs[i]) == objOf(info, rs.Value) {
+								if f := selField(info, rs.X); f != nil && f.Name() == "Parameters" {
+									okv = true // caller-supplied parameter, inserted verbatim by contract
+								}
+							}
+							r.Check(okv, "C04/assembled", fmt.Sprintf("%s store #%d into the scope", fn, n), p.Pos(v.Pos()), "builder contents or a caller parameter", "a scope value, which is later written into the SQL verbatim, is neither the contents of a checked builder nor a caller parameter: "+exprStr(v.Rhs[i]))
+						}
+					}
+				}
+			case *ast.CompositeLit:
+				if TypeStr(info.TypeOf(v)) != "pql.subquery" {
+					return true
+				}
+				if val := litField(info, v, "sourceSQL"); val != nil {
+					n++
+					r.Check(isBuilderString(val), "C04/assembled", fmt.Sprintf("%s store #%d to subquery.sourceSQL", fn, n), p.Pos(v.Pos()), "contents of a builder (every write into it is a checked emission)", "subquery.sourceSQL is initialised by hand ("+exprStr(val)+") instead of from a checked builder")
+				}
+			}
+			return true
+		})
+	}
+	r.Floor("C04/assembled", 4)
 }
 
 // ruleC04Escape recovers delimiter and escape set of the two sanitizers from the path facts.
